@@ -96,6 +96,10 @@ func (r *Run) Check(rule, construct, pos string, ok bool, msg string) bool {
 	if !ok {
 		st = Violation
 	}
+	// reaching conditions can be very long: an evidence file of several megabytes helps nobody
+	if limit := map[bool]int{true: 600, false: 6000}[ok]; len(msg) > limit {
+		msg = msg[:limit] + " …(cut)"
+	}
 	r.add(Obligation{Rule: rule, Key: rule + "@" + construct, Pos: pos, Status: st, Msg: msg})
 	return ok
 }
